@@ -331,9 +331,9 @@ def is_sub(t, want):
     return any(s == want for s in subterms(t))
 
 
-def units(ctx, prog):
+def units(ctx, prog, only=None):
     """bodies of the validation units: structure, status (RevocationBitmap2022 path), subject-holder relationship"""
-    A = Auditor(ctx, prog)
+    A = Auditor(ctx, prog, only=only)
     S = prog.structs
     CR = S['Credential']
     RU = {'scenario': 'credential_validation', 'cex': {'only': '[unit]'}}
